@@ -8,6 +8,17 @@ CONSTANTS Fams, NRand, RandKind, NChunks, WsEach
 VARIABLES fam, chunk, done
 NumOut(x) == [c |-> x.c, neg |-> x.neg, n |-> x.n, d |-> x.d]
 ReqOut(r) == [root |-> r.root, elems |-> r.elems]
+\* sub-expressions outside location paths, and two facts about them that tell whether an expression exercises one of
+\* the two recorded C01 findings (used when a run can be judged by its result only)
+RECURSIVE Subs(_)
+Subs(e) == {e} \cup (CASE e.k \in {"f1", "neg"} -> Subs(e.a)
+                       [] e.k \in {"f2", "bin"} -> Subs(e.a) \cup Subs(e.b)
+                       [] e.k = "f3" -> Subs(e.a) \cup Subs(e.b) \cup Subs(e.c)
+                       [] OTHER -> {})
+Kids(x) == CASE x.k \in {"f1", "neg"} -> {x.a} [] x.k \in {"f2", "bin"} -> {x.a, x.b} [] x.k = "f3" -> {x.a, x.b, x.c} [] OTHER -> {}
+InfStrIn(e) == \E x \in Subs(e) : LET v == Denote(x) IN v.t = "s" /\ StrClass(v.s) = "infinity"
+MultiConvIn(e) == \E x \in Subs(e) : (x.k \in {"f1", "f2", "f3", "neg"} \/ (x.k = "bin" /\ x.op \in ArithOps))
+                                      /\ \E y \in Kids(x) : Denote(y).t = "multi"
 Vec(e, f) ==
   LET ev == Eval(e, EmptyPath)  v == ev.v IN
   [fam |-> f,
@@ -21,7 +32,8 @@ Vec(e, f) ==
    calls |-> ev.calls,
    t |-> v.t, vclass |-> ValClass(v), judged |-> v.j,
    rb |-> ToBool(v), rn |-> ToNum(v), rs |-> ToStr(v),
-   rnJudged |-> v.j /\ ~IsOOM(ToNum(v))]
+   rnJudged |-> v.j /\ ~IsOOM(ToNum(v)),
+   infstr |-> InfStrIn(e), multiconv |-> MultiConvIn(e)]
 GInit == fam \in Fams /\ chunk \in 0..(NChunks - 1) /\ done = FALSE
 GNext == /\ ~done /\ done' = TRUE /\ UNCHANGED <<fam, chunk>>
          /\ LET S == IF fam = 100 THEN (IF chunk = 0 THEN RandFamily(RandKind, NRand) ELSE {}) ELSE FamilyC(fam, chunk, NChunks)
